@@ -8,6 +8,15 @@ fn no_cpuid(_leaf: u32, _sub: u32) -> std::arch::x86_64::CpuidResult { std::arch
 #[allow(dead_code)]
 fn no_cpuid1(_leaf: u32) -> std::arch::x86_64::CpuidResult { std::arch::x86_64::CpuidResult { eax: 0, ebx: 0, ecx: 0, edx: 0 } }
 
+/// HEXC reference (see contracts/prefix): used as a stub on the refusing-path harnesses only, where the unwind bound must
+/// stay at 3 (io::Error drop glue) while the real hex_encode validates its 4 output bytes as UTF-8 in a 4-iteration loop
+#[allow(dead_code)]
+fn ref_hex_encode<'a>(src: &[u8], dst: &'a mut [u8]) -> Result<&'a mut str, faster_hex::Error> {
+    if dst.len() != src.len() * 2 { return Err(faster_hex::Error::InvalidLength(src.len() * 2)); }
+    let d = |n: u8| if n < 10 { b'0' + n } else { b'a' + (n - 10) };
+    if src.len() == 2 { dst[0] = d(src[0] >> 4); dst[1] = d(src[0] & 15); dst[2] = d(src[1] >> 4); dst[3] = d(src[1] & 15); }
+    Ok(unsafe { std::str::from_utf8_unchecked_mut(dst) })
+}
 fn hexval(c: u8) -> Option<u16> {
     match c {
         b'0'..=b'9' => Some((c - b'0') as u16),
@@ -213,18 +222,18 @@ harnesses! {
     #[kani::proof] #[kani::unwind(8)] #[kani::stub(std::arch::x86_64::__cpuid_count, no_cpuid)] #[kani::stub(std::arch::x86_64::__cpuid, no_cpuid1)] encode_max_band1 => h_encode_limits::<3, 65515, _>;
     #[kani::proof] #[kani::unwind(8)] #[kani::stub(std::arch::x86_64::__cpuid_count, no_cpuid)] #[kani::stub(std::arch::x86_64::__cpuid, no_cpuid1)] encode_max_band2 => h_encode_limits::<4, 65515, _>;
     #[kani::proof] #[kani::unwind(8)] #[kani::stub(std::arch::x86_64::__cpuid_count, no_cpuid)] #[kani::stub(std::arch::x86_64::__cpuid, no_cpuid1)] encode_max_band3 => h_encode_limits::<5, 65515, _>;
-    #[kani::proof] #[kani::unwind(3)] #[kani::stub(std::arch::x86_64::__cpuid_count, no_cpuid)] #[kani::stub(std::arch::x86_64::__cpuid, no_cpuid1)] encode_empty_data => h_encode_limits::<0, 0, _>;
-    #[kani::proof] #[kani::unwind(3)] #[kani::stub(std::arch::x86_64::__cpuid_count, no_cpuid)] #[kani::stub(std::arch::x86_64::__cpuid, no_cpuid1)] encode_over_data => h_encode_limits::<0, 65517, _>;
-    #[kani::proof] #[kani::unwind(3)] #[kani::stub(std::arch::x86_64::__cpuid_count, no_cpuid)] #[kani::stub(std::arch::x86_64::__cpuid, no_cpuid1)] encode_empty_text => h_encode_limits::<1, 0, _>;
-    #[kani::proof] #[kani::unwind(3)] #[kani::stub(std::arch::x86_64::__cpuid_count, no_cpuid)] #[kani::stub(std::arch::x86_64::__cpuid, no_cpuid1)] encode_over_text => h_encode_limits::<1, 65516, _>;
-    #[kani::proof] #[kani::unwind(3)] #[kani::stub(std::arch::x86_64::__cpuid_count, no_cpuid)] #[kani::stub(std::arch::x86_64::__cpuid, no_cpuid1)] encode_empty_error => h_encode_limits::<2, 0, _>;
-    #[kani::proof] #[kani::unwind(3)] #[kani::stub(std::arch::x86_64::__cpuid_count, no_cpuid)] #[kani::stub(std::arch::x86_64::__cpuid, no_cpuid1)] encode_over_error => h_encode_limits::<2, 65513, _>;
-    #[kani::proof] #[kani::unwind(3)] #[kani::stub(std::arch::x86_64::__cpuid_count, no_cpuid)] #[kani::stub(std::arch::x86_64::__cpuid, no_cpuid1)] encode_empty_band1 => h_encode_limits::<3, 0, _>;
-    #[kani::proof] #[kani::unwind(3)] #[kani::stub(std::arch::x86_64::__cpuid_count, no_cpuid)] #[kani::stub(std::arch::x86_64::__cpuid, no_cpuid1)] encode_over_band1 => h_encode_limits::<3, 65516, _>;
-    #[kani::proof] #[kani::unwind(3)] #[kani::stub(std::arch::x86_64::__cpuid_count, no_cpuid)] #[kani::stub(std::arch::x86_64::__cpuid, no_cpuid1)] encode_empty_band2 => h_encode_limits::<4, 0, _>;
-    #[kani::proof] #[kani::unwind(3)] #[kani::stub(std::arch::x86_64::__cpuid_count, no_cpuid)] #[kani::stub(std::arch::x86_64::__cpuid, no_cpuid1)] encode_over_band2 => h_encode_limits::<4, 65516, _>;
-    #[kani::proof] #[kani::unwind(3)] #[kani::stub(std::arch::x86_64::__cpuid_count, no_cpuid)] #[kani::stub(std::arch::x86_64::__cpuid, no_cpuid1)] encode_empty_band3 => h_encode_limits::<5, 0, _>;
-    #[kani::proof] #[kani::unwind(3)] #[kani::stub(std::arch::x86_64::__cpuid_count, no_cpuid)] #[kani::stub(std::arch::x86_64::__cpuid, no_cpuid1)] encode_over_band3 => h_encode_limits::<5, 65516, _>;
+    #[kani::proof] #[kani::unwind(3)] #[kani::stub(faster_hex::hex_encode, ref_hex_encode)] encode_empty_data => h_encode_limits::<0, 0, _>;
+    #[kani::proof] #[kani::unwind(3)] #[kani::stub(faster_hex::hex_encode, ref_hex_encode)] encode_over_data => h_encode_limits::<0, 65517, _>;
+    #[kani::proof] #[kani::unwind(3)] #[kani::stub(faster_hex::hex_encode, ref_hex_encode)] encode_empty_text => h_encode_limits::<1, 0, _>;
+    #[kani::proof] #[kani::unwind(3)] #[kani::stub(faster_hex::hex_encode, ref_hex_encode)] encode_over_text => h_encode_limits::<1, 65516, _>;
+    #[kani::proof] #[kani::unwind(3)] #[kani::stub(faster_hex::hex_encode, ref_hex_encode)] encode_empty_error => h_encode_limits::<2, 0, _>;
+    #[kani::proof] #[kani::unwind(3)] #[kani::stub(faster_hex::hex_encode, ref_hex_encode)] encode_over_error => h_encode_limits::<2, 65513, _>;
+    #[kani::proof] #[kani::unwind(3)] #[kani::stub(faster_hex::hex_encode, ref_hex_encode)] encode_empty_band1 => h_encode_limits::<3, 0, _>;
+    #[kani::proof] #[kani::unwind(3)] #[kani::stub(faster_hex::hex_encode, ref_hex_encode)] encode_over_band1 => h_encode_limits::<3, 65516, _>;
+    #[kani::proof] #[kani::unwind(3)] #[kani::stub(faster_hex::hex_encode, ref_hex_encode)] encode_empty_band2 => h_encode_limits::<4, 0, _>;
+    #[kani::proof] #[kani::unwind(3)] #[kani::stub(faster_hex::hex_encode, ref_hex_encode)] encode_over_band2 => h_encode_limits::<4, 65516, _>;
+    #[kani::proof] #[kani::unwind(3)] #[kani::stub(faster_hex::hex_encode, ref_hex_encode)] encode_empty_band3 => h_encode_limits::<5, 0, _>;
+    #[kani::proof] #[kani::unwind(3)] #[kani::stub(faster_hex::hex_encode, ref_hex_encode)] encode_over_band3 => h_encode_limits::<5, 65516, _>;
     #[kani::proof] #[kani::unwind(8)] band_any_1 => h_band_any::<1, _>;
     #[kani::proof] #[kani::unwind(8)] band_any_3 => h_band_any::<3, _>;
 }
